@@ -49,6 +49,7 @@ fn main() {
                 "R" => replay_with(&reader::ReaderEngine, &rf, &path),
                 "Rc" => reader::replay_concurrent(&rf, &path),
                 "Rx2" => reader::replay_twice(&rf, &path),
+                "Rv" => reader::replay_volume(&rf, &path),
                 "K16" => {
                     let c = replay_with(&client::ClientEngine { prop: "C16" }, &rf, &path);
                     client::pty::cleanup_workdirs();
@@ -93,6 +94,12 @@ fn check(prop: &str, tier: &str) -> i32 {
             if let Some(v) = conc.violation {
                 cfg.pre_found.push(v);
                 cfg.tolerate_det_mismatch = true;
+            }
+            // and: do results change once gigabytes have gone through the decoder of one process?
+            let (vol, vol_cov) = reader::volume_purity(tier);
+            cfg.extra_coverage.push(("volume_purity".into(), vol_cov));
+            if let Some(v) = vol {
+                cfg.pre_found.push(v);
             }
             let rc = run_batch(&reader::ReaderEngine, &cfg).exit_code;
             if rc == 2 {
